@@ -389,6 +389,17 @@ func (u *Universe) verifyFunction(fn *ssa.Function, c *Contract) (fc *FuncCtx) {
 		t := env.evalBool(r.E)
 		st.assume(t)
 	}
+	// package-level sync.Map variables are empty when the init function that fills them starts
+	// (zero value; the init-invariant sweep shows no other function stores into them)
+	if isInitFunc(fn) {
+		for _, n := range u.tpkg.Scope().Names() {
+			if o, ok := u.tpkg.Scope().Lookup(n).(*types.Var); ok && u.typeName(o.Type()) == "sync.Map" {
+				mt := u.syncMapType()
+				_, dk, _, ds := fc.mapKeys(mt)
+				st.assume(Eq(st.heap.read(fc.d, dk, ds, fc.syncMapRef(n)), &Term{fmt.Sprintf("((as const %s) false)", ds), ds}))
+			}
+		}
+	}
 	fc.planReplay(st)
 	// dispatch clauses on parameters are implicit preconditions
 	for _, pn := range sortedKeys(c.Dispatch) {
